@@ -201,6 +201,16 @@ def _kill_all(signum=None, frame=None):
         os._exit(130)
 
 
+STOP = False
+
+
+def kill_running():
+    """Stop the solver processes that are running now (fail-fast); their queries come back as inconclusive."""
+    global STOP
+    STOP = True
+    _kill_all()
+
+
 def install_signal_handlers():
     signal.signal(signal.SIGTERM, _kill_all)
     signal.signal(signal.SIGINT, _kill_all)
@@ -380,6 +390,9 @@ def run_query(q, tree, workdir, log, do_replay_witness=True):
                 fails.append(pid)
             return fails, witness
 
+        if STOP:
+            R["status"] = "inconclusive"; R["detail"] = "stopped: a violation had already been confirmed in another query"
+            return R
         parsed = None
         if q.hunt:
             out = os.path.join(qd, "hunt.txt")
